@@ -17,8 +17,10 @@ int main()
    impl::Translation_unit unit { lex };
    auto& greg = *unit.global_region();
    std::vector<const ipr::Parameter*> params;
-   for (int m = 0; m < 2; ++m) {
-      auto* map = lex.make_mapping(greg, Mapping_level{ size_t(m + 1) });
+   // three parameter lists: two nested ones (levels 1, 2) and a sibling of the first at the SAME level, so that parameters
+   // of different lists share (level, position)
+   for (int m = 0; m < 3; ++m) {
+      auto* map = lex.make_mapping(greg, Mapping_level{ size_t(m == 2 ? 1 : m + 1) });
       for (int i = 0; i < 16; ++i) {
          std::u8string s = u8"p"; s += char8_t('a' + i);
          params.push_back(map->param(lex.get_identifier(s), lex.int_type()));
@@ -26,8 +28,9 @@ int main()
    }
    std::vector<const ipr::Expr*> values;
    for (int i = 0; i < 64; ++i) values.push_back(lex.make_phantom());
+   for (auto p : params) values.push_back(p);          // values 64.. are the parameters themselves (renamings, identity bindings)
    auto show = [&](const ipr::Expr& e) {
-      for (size_t i = 0; i < values.size(); ++i) if (values[i] == &e) return "v" + std::to_string(i);
+      for (size_t i = 0; i < 64; ++i) if (values[i] == &e) return "v" + std::to_string(i);
       for (size_t i = 0; i < params.size(); ++i) if (static_cast<const ipr::Expr*>(params[i]) == &e) return "p" + std::to_string(i);
       return std::string("?");
    };
